@@ -35,8 +35,9 @@ NEXT_COUNTS_AS_USE = False
 LEVEL = "exploration"
 RULE = ("seeded generator over (a) static histories: inner sampler kind (random uniform / filtered / density / Gaussian / "
         "LHS / product / concat) x domain (Interval, axis-aligned Parallelogram, Circle, parameter-dependent Circle) x "
-        "resample interval 1-7 and infinity x 1-60 operations mixing sample_points(), sample_points(device='cpu'), "
-        "sample_points(params), next(), make_static(other interval), constructing a condition with m data functions and "
+        "resample interval 1-7 and infinity x 1-60 operations mixing sample_points() with the device argument spelled as "
+        "default / 'cpu' / torch.device('cpu') / 'cpu:0', keyword or positional (constant, alternating, random, changing "
+        "mid-interval), sample_points(params), next(), make_static(other interval), constructing a condition with m data functions and "
         "its forward(); (b) non-static histories; (c) adaptive threshold histories: ratio in {0,.25,.3,.5,1} x loss "
         "vectors (ties on a dyadic grid incl. exactly at the threshold, constant, two-level, random, extreme magnitudes, "
         "None) x 0-3 parameter rows, directly and through PINNCondition.forward; (d) adaptive random: 4-7 loss levels "
@@ -44,9 +45,9 @@ RULE = ("seeded generator over (a) static histories: inner sampler kind (random 
         "first one (static: both a cached and a fresh return; adaptive: rows retained and rows replaced); distinct = "
         "(kind, inner sampler, domain, interval class, operations used, loss classes, ratio, parameter rows)")
 REQUIRED_REACH = ["StaticSampler.sample_points", "StaticSampler.make_static", "PointSampler.make_static",
-                  "StaticSampler.__next__", "StaticSampler._change_device", "PointSampler.__next__",
+                  "StaticSampler.__next__", "PointSampler.__next__",
                   "AdaptiveThresholdRejectionSampler.sample_points", "AdaptiveRandomRejectionSampler.sample_points",
-                  "Condition._setup_data_functions", "SingleModuleCondition.forward"]
+                  "SingleModuleCondition.forward"]
 MIN_NONTRIVIAL = 12
 ASSUMPTIONS = ["StaticSampler.__next__ is a peek (returns the cached set, consumes no use) -- coordinator decision; "
                "next() without a cache is an ordinary first use",
@@ -58,11 +59,14 @@ ASSUMPTIONS = ["StaticSampler.__next__ is a peek (returns the cached set, consum
                "1e-6*max|loss| of the threshold are only required to be unchanged-or-proposal",
                "adaptive random: levels with probability < 1e-6 or > 1-1e-6 are tested one-sided against 1e-6 "
                "(a float32 uniform draw hits an end point with probability 2^-24)",
-               "membership tolerance 2e-5*L (DESIGN 3.1); device 'cpu' only; loss vectors are 1-D, finite, float32"]
+               "membership tolerance 2e-5*L (DESIGN 3.1); CPU hardware only (the device argument is varied in spelling: "
+               "default, 'cpu', torch.device('cpu'), 'cpu:0'); loss vectors are 1-D, finite, float32",
+               "every sample_points call of a static sampler is a use, whatever device argument it carries"]
 CASE_TIMEOUT = 300
 ALPHA = 1e-9
 
 INTERVALS = [1, 2, 3, 4, 5, 6, 7, "inf"]
+DEVICES = ["none", "cpu", "tdev", "cpu:0"]      # default argument, "cpu", torch.device("cpu"), "cpu:0"
 
 
 # ---------------------------------------------------------------------------------------------
@@ -181,7 +185,8 @@ class Tap:
             start = len(tap.proposals)
             out = orig(*a, **k)
             loss = k.get("unreduced_loss", a[0] if (a and isinstance(a[0], torch.Tensor)) else None)
-            tap.events.append({"ret": _snap(out), "props": tap.proposals[start:], "label": tap.label,
+            dev = k["device"] if "device" in k else (a[1] if len(a) > 1 and not isinstance(a[1], torch.Tensor) else "<default>")
+            tap.events.append({"ret": _snap(out), "props": tap.proposals[start:], "label": tap.label, "dev": repr(dev),
                                "loss": None if loss is None else loss.detach().clone()})
             return out
         sampler.sample_points = rec
@@ -218,6 +223,11 @@ def _gen_static(rng, tier):
     p_cond = 0.06 if (k == 0 and inner in ("ru", "gauss", "lhs", "ru_filter")) else 0.0
     ops = []
     have_cond = False
+    # device-argument pattern of the history: every sample_points call is a use, whatever the spelling of the device
+    devmode = str(rng.choice(["plain", "plain", "alt", "random", "random", "switch"]))
+    pair = [str(x) for x in rng.choice(DEVICES, size=2, replace=False)]
+    cur = str(rng.choice(DEVICES))
+    n_sp = 0
     for _ in range(length):
         u = rng.random()
         if u < p_next:
@@ -228,30 +238,38 @@ def _gen_static(rng, tier):
             ops.append(["cond", int(rng.integers(0, 4))])
             have_cond = True
         elif have_cond and u < p_next + p_re + 3 * p_cond:
-            ops.append(["fwd"])
+            ops.append(["fwd", str(rng.choice(DEVICES))] if devmode != "plain" else ["fwd"])
         else:
             v = rng.random()
-            if dom["dom"] == "pcircle":
-                ops.append(["sp_params"] if v < 0.7 else ["sp_params_dev"])
-            elif k and v < 0.5:
-                ops.append(["sp_params"])
+            with_params = dom["dom"] == "pcircle" or bool(k and v < 0.5)
+            if devmode == "plain":
+                dev = "none" if rng.random() < 0.75 else "cpu"
+            elif devmode == "alt":
+                dev = pair[n_sp % 2]
+            elif devmode == "random":
+                dev = str(rng.choice(DEVICES))
             else:
-                ops.append(["sp"] if v < 0.75 else ["sp_dev"])
+                if rng.random() < 0.15:
+                    cur = str(rng.choice([d for d in DEVICES if d != cur]))
+                dev = cur
+            n_sp += 1
+            ops.append(["spx", dev, bool(devmode != "plain" and rng.random() < 0.3), with_params])
     if dom["dom"] == "pcircle":          # the first draw needs the parameters: no next() before a set is cached
         for i, o in enumerate(ops):
-            if o[0] in ("sp_params", "sp_params_dev"):
+            if o[0] == "spx":
                 break
             if o[0] == "next":
-                ops[i] = ["sp_params"]
+                ops[i] = ["spx", "none", False, True]
                 break
-    return {"kind": "static", "inner": inner, "dom": dom, "n": n, "interval": interval, "k": k, "ops": ops,
+    return {"kind": "static", "inner": inner, "dom": dom, "n": n, "interval": interval, "k": k, "ops": ops, "devmode": devmode,
             "seed": int(rng.integers(0, 2**31))}
 
 
 def _gen_nonstatic(rng, tier):
     inner = str(rng.choice(["ru", "ru_filter", "gauss", "lhs", "prod", "concat"]))
     dom = _gen_domain(rng, allow_param=False)
-    ops = [[str(rng.choice(["sp", "sp_dev", "next"]))] for _ in range(int(rng.integers(2, 25)))]
+    ops = [(["next"] if rng.random() < 0.3 else ["spx", str(rng.choice(DEVICES)), bool(rng.random() < 0.3), False])
+           for _ in range(int(rng.integers(2, 25)))]
     return {"kind": "nonstatic", "inner": inner, "dom": dom, "n": int(rng.integers(4, 25)), "k": 0, "ops": ops,
             "seed": int(rng.integers(0, 2**31))}
 
@@ -312,6 +330,14 @@ def gen_cases(seed, tier):
                               "interval": iv, "k": 0,
                               "ops": [["sp"]] * cut + [["restatic", iv2]] + [["sp"]] * (2 * (iv2 if iv2 != "inf" else 5) + 2),
                               "seed": int(rng.integers(0, 2**31))})
+        # the same boundaries with the device argument spelled differently from call to call / changing mid-interval
+        for a, b in (("none", "tdev"), ("cpu", "cpu:0"), ("tdev", "cpu:0"), ("none", "cpu")):
+            hists = [[["spx", (a, b)[i % 2], False, False] for i in range(m)]]
+            for cut in (1, 2):
+                hists.append([["spx", a, False, False]] * cut + [["spx", b, bool(cut == 2), False]] * (m - cut))
+            for h in hists:
+                cases.append({"kind": "static", "inner": "ru", "dom": {"dom": "interval", "a": 0.0, "b": 1.0}, "n": 6,
+                              "interval": iv, "k": 0, "ops": h, "devmode": "fixed", "seed": int(rng.integers(0, 2**31))})
     return cases
 
 
@@ -407,16 +433,29 @@ def _run_static(c, res):
     kinds_seen = set()
     res["ops_used"] = set()
 
+    devs = {"last": None, "cur": None, "changes": 0}
+
     def mech(label, **kw):
         u = "lt" if ref.uses < ref.interval else ("eq" if ref.uses == ref.interval else "gt")
         return dict(mech0, call=label, interval_class=_ivclass("inf" if ref.interval == math.inf else ref.interval),
-                    after_restatic=restaticised, uses_vs_interval=u, **kw)
+                    after_restatic=restaticised, uses_vs_interval=u, device_arg=devs["cur"],
+                    device_arg_changed=devs["last"] is not None and devs["cur"] != devs["last"],
+                    device_args_changed_before=devs["changes"] > 0, **kw)
 
     def judge(ev, label):
         """one observed sample_points call against the automaton; returns False after a violation"""
         exp = ref.expect()
         got, props = ev["ret"], ev["props"]
         res["judged"] += 1
+        devs["cur"] = ev.get("dev")
+        ok = _judge_inner(ev, label, exp, got, props)
+        if devs["last"] is not None and devs["cur"] != devs["last"]:
+            devs["changes"] += 1
+            _cnt(res, "static_calls_with_changed_device_spelling")
+        devs["last"] = devs["cur"]
+        return ok
+
+    def _judge_inner(ev, label, exp, got, props):
         is_prop = bool(props) and _same(got, props[-1])
         is_cache = _same(got, ref.cache)
         where = "call #%d (%s), interval %s, uses of the current set so far %d" % (res["judged"], label, ref.interval, ref.uses)
@@ -455,7 +494,9 @@ def _run_static(c, res):
         res["ops_used"].add(name)
         tap.label = name
         try:
-            if name == "sp":
+            if name == "spx":
+                _call_static(s, P if op[3] else None, op[1], op[2])
+            elif name == "sp":
                 s.sample_points()
             elif name == "sp_dev":
                 s.sample_points(device="cpu")
@@ -503,7 +544,10 @@ def _run_static(c, res):
                 _cnt(res, "condition_constructions")
             elif name == "fwd":
                 if cond is not None:
-                    cond.forward()
+                    if len(op) > 1 and op[1] != "none":
+                        cond.forward(device=_device(op[1]))
+                    else:
+                        cond.forward()
                     _cnt(res, "condition_forwards")
         except Exception as e:
             res["viol"].append(viol("exception", "history op %s raised %r after %d judged calls" % (op, e, res["judged"]),
@@ -516,6 +560,22 @@ def _run_static(c, res):
             if not judge(ev, label):
                 return
     res["nontrivial"] = {"cached", "fresh"} <= kinds_seen or (res["judged"] >= 2 and ref.interval in (1, math.inf))
+
+
+def _device(d):
+    return {"cpu": "cpu", "tdev": torch.device("cpu"), "cpu:0": "cpu:0"}[d]
+
+
+def _call_static(s, P, dev, positional):
+    """sample_points with the device argument spelled / passed in one of the generated ways"""
+    from torchphysics.problem.spaces import Points
+    if dev == "none":
+        return s.sample_points(P) if P is not None else s.sample_points()
+    if positional:
+        return s.sample_points(P if P is not None else Points.empty(), _device(dev))
+    if P is not None:
+        return s.sample_points(P, device=_device(dev))
+    return s.sample_points(device=_device(dev))
 
 
 def _make_condition(c, sampler, m):
@@ -559,7 +619,10 @@ def _run_nonstatic(c, res):
     for i, op in enumerate(c["ops"]):
         res["ops_used"].add(op[0])
         try:
-            out = next(s) if op[0] == "next" else (s.sample_points(device="cpu") if op[0] == "sp_dev" else s.sample_points())
+            if op[0] == "spx":
+                out = _call_static(s, None, op[1], op[2])
+            else:
+                out = next(s) if op[0] == "next" else (s.sample_points(device="cpu") if op[0] == "sp_dev" else s.sample_points())
         except Exception as e:
             res["viol"].append(viol("exception", "%s raised %r" % (op, e), site=exc_site(e), call=op[0], **mech))
             return
@@ -887,9 +950,11 @@ def _cls(c, res):
     k = c["kind"]
     if k == "static":
         ops = "".join(sorted({"sp": "s", "sp_dev": "d", "sp_params": "p", "sp_params_dev": "P", "next": "n", "restatic": "r",
-                              "cond": "c", "fwd": "f"}[o] for o in res.pop("ops_used", set())))
+                              "cond": "c", "fwd": "f", "spx": "x"}[o] for o in res.pop("ops_used", set())))
         ln = "L1" if len(c["ops"]) <= 3 else ("L2" if len(c["ops"]) <= 15 else "L3")
-        return "static/%s/%s/i%s/%s/%s/k%d" % (c["inner"], c["dom"]["dom"], _ivclass(c["interval"]), ln, ops, min(c["k"], 2))
+        nd = len({o[1] for o in c["ops"] if o[0] == "spx"})
+        return "static/%s/%s/i%s/%s/%s/k%d/dev-%s%d" % (c["inner"], c["dom"]["dom"], _ivclass(c["interval"]), ln, ops,
+                                                        min(c["k"], 2), c.get("devmode", "plain"), min(nd, 3))
     if k == "nonstatic":
         return "nonstatic/%s/%s/%s" % (c["inner"], c["dom"]["dom"], "".join(sorted(o[0] for o in res.pop("ops_used", set()))))
     if k == "adaptive_thr":
